@@ -514,7 +514,7 @@ Lemma isolate_sem t v s :
   let a := get_coefficient t v in
   ~ (a == 0)%Q /\ ~ In v (term_vars_p s) /\
   lin rho (tvars s) = (- (lin rho (tvars t) - Q2R a * rho v) / Q2R a)%R /\
-  Q2R (tconst s) = (Q2R (tconst t) / Q2R a)%R.
+  Q2R (tconst s) = (- Q2R (tconst t) / Q2R a)%R.
 Proof.
   intros [Ht Hnz]. unfold term_isolate_variable.
   destruct (py_in v (term_vars_p t)) eqn:E; cbn [negb]; [|discriminate].
@@ -528,7 +528,7 @@ Proof.
   - rewrite lin_mk_term, (lin_map_div _ _ Ha).
     change (filter (fun p : string * Q => negb (String.eqb (fst p) v)) (tvars t)) with (dict_pop (tvars t) v).
     rewrite (lin_dict_pop (tvars t) v Ht), <- get_coefficient_coef. reflexivity.
-  - rewrite mk_term_const. apply Q2R_qdiv. exact Ha.
+  - rewrite mk_term_const. rewrite (Q2R_qdiv _ _ Ha), Q2R_qneg. reflexivity.
 Qed.
 Lemma isolate_error t v e :
   term_isolate_variable t v = inr e -> e = ValueErr /\ ~ In v (term_vars_p t).
